@@ -23,6 +23,7 @@ import Relic.Driver.C19
 import Relic.Driver.C17
 import Relic.Driver.C14
 import Relic.Driver.C11
+import Relic.Driver.Deb
 import Relic.Driver.ApkVerify
 import Relic.Driver.XmlSig
 open Relic
@@ -53,6 +54,7 @@ def dispatch (line : String) : String :=
   | "C17" :: rest => Relic.Driver.C17.handle rest
   | "C14" :: rest => Relic.Driver.C14.handle rest
   | "C11" :: rest => Relic.Driver.C11.handle rest
+  | "DEB" :: rest => Relic.Driver.Deb.handle rest
   | "APKV" :: rest => Relic.Driver.ApkVerify.handle rest
   | "APKBLK" :: rest => Relic.Driver.C11.handleApk rest
   | "CSBLOB" :: rest => Relic.Driver.C11.handleCs rest
